@@ -31,6 +31,7 @@ type monitorState struct {
 	maps        map[*omap]string
 	held        map[*value]bool // mutex cells currently held
 	storeMu     *value
+	acq         int // acquisitions of the database mutex while the monitor is on
 	sections    int // completed or running sections of the database mutex with at least one access
 	curHasAcc   bool
 	unguarded   []monAccess
@@ -49,6 +50,7 @@ func (m *monitorState) reset() {
 	m.maps = map[*omap]string{}
 	m.held = map[*value]bool{}
 	m.storeMu = nil
+	m.acq = 0
 	m.sections = 0
 	m.curHasAcc = false
 	m.unguarded = nil
@@ -185,6 +187,7 @@ func monLock(mu *value, lock bool) {
 		mon.held[mu] = true
 		if mu == mon.storeMu {
 			mon.curHasAcc = false
+			mon.acq++
 		}
 	} else {
 		delete(mon.held, mu)
@@ -285,6 +288,8 @@ func init() {
 }
 
 func init() {
+	// vLockAcquisitions(): how often the monitored command took the database mutex
+	externals[hpkg+"vLockAcquisitions"] = func(fr *frame, a []value) value { return mon.acq }
 	externals[hpkg+"vRaceWorkload"] = func(fr *frame, a []value) value { return nil }
 }
 
